@@ -67,6 +67,48 @@ def const_value(o):
     return ("raw", s)
 
 
+_NORM_CACHE = {}
+
+
+def norm_path(p):
+    """callee path with generic argument lists removed:
+    std::collections::HashMap::<K, V, S, A>::entry -> std::collections::HashMap::entry
+    <std::str::Chars<'a> as std::iter::Iterator>::next -> <std::str::Chars as std::iter::Iterator>::next"""
+    r = _NORM_CACHE.get(p)
+    if r is not None:
+        return r
+    out = []
+    i = 0
+    n = len(p)
+    while i < n:
+        c = p[i]
+        if c == "<":
+            prev = out[-1] if out else ""
+            # generic list if it follows an identifier char or '::'
+            if prev and (prev.isalnum() or prev == "_" or (prev == ":" and len(out) >= 2 and out[-2] == ":")):
+                depth = 0
+                j = i
+                while j < n:
+                    if p[j] == "<":
+                        depth += 1
+                    elif p[j] == ">" and (j == 0 or p[j - 1] != "-"):
+                        depth -= 1
+                        if depth == 0:
+                            break
+                    j += 1
+                # drop a trailing '::' before the list (turbofish)
+                if len(out) >= 2 and out[-1] == ":" and out[-2] == ":":
+                    out.pop()
+                    out.pop()
+                i = j + 1
+                continue
+        out.append(c)
+        i += 1
+    r = "".join(out)
+    _NORM_CACHE[p] = r
+    return r
+
+
 # ------------------------------------------------------------------- CFG core
 
 class Body:
@@ -311,7 +353,7 @@ def _through_deref(place):
 # Terms are nested tuples:
 #   ('param', i)                      i-th local (1-based argument)
 #   ('const', ty, value)
-#   ('havoc', local, header)          loop-carried unknown at a loop header
+#   ('havoc', local, header, init)    loop-carried unknown at a loop header (init = value on loop entry)
 #   ('undef', local)
 #   ('call', path, gargs, args, site) site = bb index for impure callees, None for pure ones
 #   ('ref', t) ('refmut', t)          borrow of the value/place t
@@ -397,7 +439,7 @@ def strip_refs(t):
 
 def mentions(t, pred):
     """does any sub-term satisfy pred?"""
-    if pred(t):
+    if isinstance(t, tuple) and t and isinstance(t[0], str) and pred(t):
         return True
     if isinstance(t, tuple):
         for x in t:
@@ -407,7 +449,9 @@ def mentions(t, pred):
 
 
 def subterms(t):
-    yield t
+    """all non-empty tuple sub-terms (argument tuples are traversed but only headed terms are yielded)"""
+    if isinstance(t, tuple) and t and isinstance(t[0], str):
+        yield t
     if isinstance(t, tuple):
         for x in t:
             if isinstance(x, tuple):
@@ -431,7 +475,7 @@ def term_str(t, depth=0):
             return "fn:" + v[1]
         return repr(v)
     if k == "havoc":
-        return "loopvar(_%d@bb%d)" % (t[1], t[2])
+        return "loopvar(_%d@bb%d)" % (t[1], t[2]) if depth > 2 or len(t) < 4 else "loopvar(_%d@bb%d init=%s)" % (t[1], t[2], r(t[3]))
     if k == "undef":
         return "undef(_%d)" % t[1]
     if k == "call":
@@ -497,8 +541,9 @@ class Path:
     def conds(self):
         return [e for e in self.events if e.kind == "cond"]
 
-    def calls(self, path_suffix=None):
-        return [e for e in self.events if e.kind == "call" and (path_suffix is None or e.path.endswith(path_suffix) or e.path == path_suffix)]
+    def calls(self, *suffixes):
+        return [e for e in self.events if e.kind == "call" and (not suffixes or any(
+            e.path.endswith(x) or e.name.endswith(x) for x in suffixes))]
 
 
 class PathLimit(Exception):
@@ -732,7 +777,7 @@ class PathEval:
                 return
             if bb in body.loops:
                 for l in self._loop_defs[bb]:
-                    st["env"][l] = ("havoc", l, bb)
+                    st["env"][l] = ("havoc", l, bb, self.read_local(st, l))
                 # forget memory facts that may be overwritten in the loop
                 for key in list(st["mem"].keys()):
                     del st["mem"][key]
@@ -773,7 +818,7 @@ class PathEval:
                 path = f["path"]
                 site = None if is_pure(path) else bb
                 val = ("call", path, tuple(f.get("gargs", ())), args, site)
-                ev = Event("call", bb, path=path, full=f["full"], func=f, args=args, dest=t["dest"], term=val,
+                ev = Event("call", bb, path=path, name=norm_path(path), full=f["full"], func=f, args=args, dest=t["dest"], term=val,
                            diverges=t["target"] is None)
                 events = events + [ev]
                 # &mut arguments to whole locals: the local is mutated
